@@ -28,11 +28,12 @@ def run(tier):
     mid = ["ARDUINOJSON_SLOT_ID_SIZE=2", "ARDUINOJSON_STRING_LENGTH_SIZE=2", "ARDUINOJSON_POOL_CAPACITY=16"]
     big = ["ARDUINOJSON_SLOT_ID_SIZE=4", "ARDUINOJSON_STRING_LENGTH_SIZE=4"]
     variants = [("def", D, [], False), ("arduino", D, [], True), ("small", D, small, False), ("mid", D, mid, False),
-                ("big", D, big, False), ("all", A, [], False), ("nouni", U, [], False)]
+                ("big", D, big, False), ("all", A, [], False), ("nouni", U, [], False),
+                ("debug", D, ["ARDUINOJSON_DEBUG=1"], False)]   # the library's internal assertions turned on
     bins = rk.build_readers(variants)
     rng = random.Random(vlib.seed())
     n = 4000 if quick else 60000
-    for o, labels in ((D, ["def", "arduino", "small", "mid", "big"]), (A, ["all"]), (U, ["nouni"])):
+    for o, labels in ((D, ["def", "arduino", "small", "mid", "big", "debug"]), (A, ["all"]), (U, ["nouni"])):
         lines = rg.gen_mutants(rng, o, n if o == D else n // 3)
         wants = []
         lines += rg.gen_valid(rng, o, n // 4, wants)
@@ -48,7 +49,7 @@ def run(tier):
                 [("small", bins["small"])])
     rk.run_mc(chk, wd, rk.group_by_opts(bins, variants[:2]), [("chars", "chars", 4, [0, 1, 10], "none", D)])
     # MessagePack: every encoding, prefix, corruption and random bytes (bounded kinds only)
-    mp.run_msgpack_feed(chk, wd, "msgpack", rng, n, [(l, bins[l]) for l in ["def", "arduino", "small", "mid", "big"]],
+    mp.run_msgpack_feed(chk, wd, "msgpack", rng, n, [(l, bins[l]) for l in ["def", "arduino", "small", "mid", "big", "debug"]],
                         corrupt=True)
     # MessagePack under arbitrary filter documents (string and number leaves, nested shapes that disagree with the input)
     from checks import msgpackgen as mg
